@@ -163,9 +163,11 @@ class NaiveBayes(BayesianNetwork):
         """
         independencies = Independencies()
         for variable in [variables] if isinstance(variables, str) else variables:
-            if variable != self.dependent:
+            # `set(variable)` would split a string name into its characters
+            other_features = set(self.features) - {variable}
+            if variable != self.dependent and other_features:
                 independencies.add_assertions(
-                    [variable, list(set(self.features) - set(variable)), self.dependent]
+                    [variable, list(other_features), self.dependent]
                 )
         return independencies
 
